@@ -729,6 +729,7 @@ func (vc *VC) havocForLoop(body ast.Node, extra []ast.Node, st *State, hint stri
 		oldLen := vc.heap(st, "$TraceLen", SInt)
 		vc.heap(st, "$Trace", SArr)
 		vc.heap(st, "$TraceArgs", SMem)
+		vc.fuelStep(st)
 		for _, name := range []string{"$nextArr", "$TraceLen", "$Trace", "$TraceArgs"} {
 			if h, ok := st.heaps[name]; ok {
 				nh := vc.fresh(name, h.Sort)
@@ -778,11 +779,18 @@ func (vc *VC) havocAll(st *State, why string) {
 			st.heaps[name] = nh
 			continue
 		}
+		if name == "$Fuel" {
+			vc.fuelStep(st)
+			continue
+		}
+		if strings.HasPrefix(name, "$Ghost:") {
+			continue // havoc'd by fuelStep
+		}
 		st.heaps[name] = vc.fresh(name, h.Sort)
 	}
 	// heaps not yet materialised are unknown too: materialise all known names
 	for name, s := range vc.heapSorts {
-		if strings.HasPrefix(name, "$Trace") || strings.HasPrefix(name, "G[") {
+		if strings.HasPrefix(name, "$Trace") || strings.HasPrefix(name, "G[") || name == "$Fuel" || strings.HasPrefix(name, "$Ghost:") {
 			continue
 		}
 		if _, ok := st.heaps[name]; !ok {
@@ -962,8 +970,15 @@ func (vc *VC) execFor(x *ast.ForStmt, st *State, label string) Flow {
 	exit.pc = And(condSt.pc, Not(c))
 	vc.cover(body, nil, fmt.Sprintf("loop%d:body-reachable", lc.ord))
 	var v0 *Term
+	var autos []autoVariant
 	if lc.spec != nil && lc.spec.Decreases != nil {
 		v0 = vc.specInt(vc.specEnvAt(body, lc.pos), lc.spec.Decreases.Expr)
+	} else {
+		// measured where the iteration starts (before the condition is evaluated: a condition may itself consume
+		// tokens), under the path condition of entering the body
+		m0 := headSnap.clone()
+		m0.pc = body.pc
+		autos = vc.autoVariants(x, m0)
 	}
 	f := vc.execBlock(x.Body.List, body)
 	var backs []*State
@@ -1004,6 +1019,11 @@ func (vc *VC) execFor(x *ast.ForStmt, st *State, label string) Flow {
 			if v0 != nil {
 				v1 := vc.specInt(vc.specEnvAt(back, lc.pos), lc.spec.Decreases.Expr)
 				vc.oblige(back, "variant", nil, fmt.Sprintf("loop%d:decreases %s", lc.ord, clip(lc.spec.Decreases.Text)), And(Le(Zero, v0), Lt(v1, v0)))
+			}
+			for _, av := range autos {
+				if v1, ok := av.eval(back); ok {
+					vc.oblige(back, "variant.auto", nil, fmt.Sprintf("loop%d:%s", lc.ord, av.text), And(Le(Zero, av.v0), Lt(v1, av.v0)))
+				}
 			}
 		}
 	}
@@ -1295,4 +1315,155 @@ func (vc *VC) atMap() map[ast.Stmt][]*AtSpec {
 func nodeTextFull(fset *token.FileSet, n ast.Node) string {
 	s := nodeText(fset, n)
 	return s
+}
+
+// ---- automatic loop variants (termination sweep)
+// A `for` loop without a `decreases` clause gets candidate variants read off its condition: for a conjunct a < b the
+// measure b - a, for a <= b the measure b - a + 1, and symmetrically for > and >=; a loop without condition (and any loop
+// whose body calls something) also gets the ghost token measure fuel(). Each candidate is an obligation of kind
+// variant.auto: "the measure is non-negative when the body is entered and strictly smaller at the back edge". Only
+// discharged candidates are registered and claimed; a loop none of whose candidates discharges is undecided.
+type autoVariant struct {
+	text string
+	v0   *Term
+	eval func(st *State) (*Term, bool)
+}
+
+func (vc *VC) autoVariants(x *ast.ForStmt, body *State) []autoVariant {
+	var out []autoVariant
+	simple := func(e ast.Expr) bool {
+		ok := true
+		ast.Inspect(e, func(n ast.Node) bool {
+			switch c := n.(type) {
+			case *ast.CallExpr:
+				id, isId := unparen(c.Fun).(*ast.Ident)
+				if !isId || (id.Name != "len" && id.Name != "cap") {
+					ok = false
+				} else if _, isB := vc.info.ObjectOf(id).(*types.Builtin); !isB {
+					ok = false
+				}
+			case *ast.FuncLit, *ast.UnaryExpr, *ast.StarExpr, *ast.TypeAssertExpr:
+				if u, isU := c.(*ast.UnaryExpr); !isU || u.Op != token.SUB {
+					ok = false
+				}
+			}
+			return ok
+		})
+		return ok && kindOf(vc.typeOf(e)) == KInt
+	}
+	quietInt := func(e ast.Expr, st *State) (t *Term, ok bool) {
+		vc.quiet = true
+		defer func() {
+			vc.quiet = false
+			if r := recover(); r != nil {
+				t, ok = nil, false
+			}
+		}()
+		v := vc.eval(e, st.clone())
+		if len(v.C) != 1 || v.C[0].Sort != SInt {
+			return nil, false
+		}
+		return v.C[0], true
+	}
+	var conj func(e ast.Expr)
+	conj = func(e ast.Expr) {
+		e = unparen(e)
+		b, isB := e.(*ast.BinaryExpr)
+		if !isB {
+			return
+		}
+		if b.Op == token.LAND {
+			conj(b.X)
+			conj(b.Y)
+			return
+		}
+		var hi, lo ast.Expr
+		plus := int64(0)
+		switch b.Op {
+		case token.LSS:
+			lo, hi = b.X, b.Y
+		case token.LEQ:
+			lo, hi, plus = b.X, b.Y, 1
+		case token.GTR:
+			lo, hi = b.Y, b.X
+		case token.GEQ:
+			lo, hi, plus = b.Y, b.X, 1
+		default:
+			return
+		}
+		if !simple(lo) || !simple(hi) {
+			return
+		}
+		measure := func(st *State) (*Term, bool) {
+			h, ok1 := quietInt(hi, st)
+			l, ok2 := quietInt(lo, st)
+			if !ok1 || !ok2 {
+				return nil, false
+			}
+			return Add(Sub(h, l), IntK(plus)), true
+		}
+		if v0, ok := measure(body); ok {
+			out = append(out, autoVariant{text: "auto " + clip(nodeText(vc.prog.Fset, hi)+" - "+nodeText(vc.prog.Fset, lo)), v0: v0, eval: measure})
+		}
+	}
+	if x.Cond != nil {
+		conj(x.Cond)
+	}
+	calls := false
+	var where ast.Node = x.Body
+	if x.Cond != nil {
+		where = &ast.BlockStmt{List: []ast.Stmt{&ast.ExprStmt{X: x.Cond}, x.Body}}
+	}
+	ast.Inspect(where, func(n ast.Node) bool {
+		if c, ok := n.(*ast.CallExpr); ok {
+			if id, isId := unparen(c.Fun).(*ast.Ident); isId {
+				if _, isB := vc.info.ObjectOf(id).(*types.Builtin); isB {
+					return true
+				}
+			}
+			if tv, ok := vc.info.Types[c.Fun]; ok && tv.IsType() {
+				return true
+			}
+			calls = true
+		}
+		return true
+	})
+	if calls && len(out) == 0 {
+		fuelAt := func(st *State) (*Term, bool) { return vc.heap(st, "$Fuel", SInt), true }
+		f0, _ := fuelAt(body)
+		out = append(out, autoVariant{text: "auto fuel()", v0: f0, eval: fuelAt})
+		// look-ahead loops: `for { t := tb.Peek(i); ...; i++ }` end because the look-ahead distance overtakes the
+		// number of remaining tokens - candidate fuel() - i for every integer variable the body increments
+		seen := map[types.Object]bool{}
+		ast.Inspect(x.Body, func(n ast.Node) bool {
+			if _, isLit := n.(*ast.FuncLit); isLit {
+				return false
+			}
+			inc, isInc := n.(*ast.IncDecStmt)
+			if !isInc || inc.Tok != token.INC {
+				return true
+			}
+			id, isId := unparen(inc.X).(*ast.Ident)
+			if !isId || kindOf(vc.typeOf(id)) != KInt {
+				return true
+			}
+			o := vc.info.ObjectOf(id)
+			if o == nil || seen[o] {
+				return true
+			}
+			seen[o] = true
+			at := func(st *State) (*Term, bool) {
+				i, ok := quietInt(id, st)
+				if !ok {
+					return nil, false
+				}
+				return Sub(vc.heap(st, "$Fuel", SInt), i), true
+			}
+			if v0, ok := at(body); ok {
+				out = append(out, autoVariant{text: "auto fuel() - " + id.Name, v0: v0, eval: at})
+			}
+			return true
+		})
+	}
+	return out
 }
